@@ -135,6 +135,7 @@ type rpPart struct {
 	published int64 // last offset handed to onFlush
 	seq       int
 	skipTo    int64 // gap layouts: the log was re-opened at this later start offset
+	ever      map[int64][]rpBatch // every batch ever appended, by base offset (across restarts)
 	cat       []byte
 	pos       []int
 }
@@ -252,7 +253,12 @@ func (s *rpSys) appendWith(mk func(p *rpPart) ([]byte, int)) error {
 		}
 		patched := append([]byte(nil), raw...)
 		binary.BigEndian.PutUint64(patched[0:8], uint64(base))
-		p.ref = append(p.ref, rpBatch{Base: base, Last: base + int64(n) - 1, Bytes: patched})
+		nb := rpBatch{Base: base, Last: base + int64(n) - 1, Bytes: patched}
+		p.ref = append(p.ref, nb)
+		if p.ever == nil {
+			p.ever = map[int64][]rpBatch{}
+		}
+		p.ever[base] = append(p.ever[base], nb)
 		p.cat = nil
 		if s.cfg.MaxBatches > 0 && aerr == nil && !(s.blocked && p == s.parts[0]) {
 			// an append-triggered flush drained everything buffered so far
@@ -347,8 +353,13 @@ func (s *rpSys) endParkedFlush(fail bool) error {
 	return nil
 }
 
-// restart replaces every log by a fresh one (fresh cache) restored from the S3 fake;
-// batches that were not in a committed segment are gone (and leave the reference).
+// restart replaces every log by a fresh one (fresh cache) restored from the S3 fake.
+// Batches that were not in a committed segment leave the reference, unless the restore
+// resurrects them: two failed flush attempts (one lost its segment PUT, the other its
+// index PUT) can leave a complete segment+index pair of never-acknowledged batches in
+// the bucket. Such a tail is re-admitted to the reference only if its bytes are batches
+// some producer did append at exactly those offsets (checked against the bucket object,
+// not through Read).
 func (s *rpSys) restart() error {
 	s.cache = s.cfg.newCache()
 	for _, p := range s.parts {
@@ -358,9 +369,49 @@ func (s *rpSys) restart() error {
 		if _, err := p.log.RestoreFromS3(context.Background()); err != nil {
 			return fmt.Errorf("RestoreFromS3: %w", err)
 		}
+		durableEnd := p.end()
+		p.log.mu.Lock()
+		segs := append([]segmentRange(nil), p.log.segments...)
+		p.log.mu.Unlock()
+		for _, sg := range segs {
+			if sg.baseOffset < durableEnd {
+				continue
+			}
+			s.s3.MemoryS3Client.mu.Lock()
+			obj := append([]byte(nil), s.s3.MemoryS3Client.data[p.log.segmentKey(sg.baseOffset)]...)
+			s.s3.MemoryS3Client.mu.Unlock()
+			if len(obj) < 48 {
+				return fmt.Errorf("restored segment %d has %d bytes", sg.baseOffset, len(obj))
+			}
+			body := obj[32 : len(obj)-16]
+			cur := sg.baseOffset
+			for len(body) > 0 {
+				var hit *rpBatch
+				for i := range p.ever[cur] {
+					c := &p.ever[cur][i]
+					if bytes.HasPrefix(body, c.Bytes) {
+						hit = c
+					}
+				}
+				if hit == nil {
+					return fmt.Errorf("%w: restored segment %d holds bytes at offset %d that no producer appended there", rpErrResurrected, sg.baseOffset, cur)
+				}
+				p.ref = append(p.ref, *hit)
+				body = body[len(hit.Bytes):]
+				cur = hit.Last + 1
+			}
+		}
+		p.cat = nil
+		p.durable = len(p.ref)
+		p.skipTo = 0
+		if n := len(p.ref); n == 0 || p.ref[n-1].Last+1 < p.published+1 {
+			p.skipTo = p.published + 1
+		}
 	}
 	return nil
 }
+
+var rpErrResurrected = errors.New("restored bytes never appended")
 
 // rpRead is the classification of one PartitionLog.Read result against the reference.
 type rpRead struct {
